@@ -141,6 +141,15 @@ func (w *webWriter) flushWithTrailer() {
 		if err := w.writeTrailer(); err != nil {
 			return // nothing
 		}
+	} else {
+		// Trailers-only: nothing was written, the trailers go into the headers.
+		hdr := w.Header()
+		for key, val := range hdr {
+			if strings.HasPrefix(key, http.TrailerPrefix) {
+				delete(hdr, key)
+				hdr[strings.TrimPrefix(key, http.TrailerPrefix)] = val
+			}
+		}
 	}
 	w.Flush()
 }
